@@ -68,6 +68,34 @@ def ok : Frame → Prop
   | colon n _ _ q => (n.op.ty == T.colon) = true ∧ (q.ty == T.questionMark) = true
   | opn n => has n.op.ty T.pairStart = true
 
+/-- the operands a frame owns, as trees (the `? t` of a colon frame counted as `t`) -/
+def operands : Frame → List Expr
+  | pre _ => [] | bin _ l => [l] | post _ e => [e] | quest _ c => [c] | colon _ c t _ => [c, t] | opn _ => []
+
+/-- binding level of the tree that applying the frame produces (16 for a pending `?`: the conditional
+    expression it will be part of) -/
+def lvl : Frame → Nat
+  | pre n => n.op.prec | bin n _ => n.op.prec | post n _ => n.op.prec
+  | quest _ _ => Op.questionMark.prec | colon _ _ _ _ => Op.questionMark.prec | opn _ => 0
+
+/-- the operand to the left of the frame's operator binds tightly enough -/
+def fit : Frame → Bool
+  | pre _ => true
+  | bin n l => leftFits n.op.prec (rootPrec l)
+  | post n e => leftFits n.op.prec (rootPrec e)
+  | quest _ c => leftFits Op.questionMark.prec (rootPrec c)
+  | colon _ c _ _ => leftFits Op.questionMark.prec (rootPrec c)
+  | opn _ => true
+
+/-- a tree of level `p` may become the right operand of the frame's operator -/
+def accepts : Frame → Nat → Bool
+  | pre n, p => rightFits n.op.prec p
+  | bin n _, p => rightFits n.op.prec p
+  | post _ _, _ => false
+  | quest _ _, _ => true
+  | colon _ _ _ _, p => rightFits Op.questionMark.prec p
+  | opn _, _ => true
+
 end Frame
 
 /-- output stack of a scope: optional top operand, then the frames' operands -/
@@ -208,5 +236,50 @@ theorem printToks_pfx (n : OpNode) (e : Expr) (h : preOk n.op = true) :
       · rfl
       · exact absurd (h5 hh) hs
     simp [hs, hp, printToks]
+
+end Occa.Expr
+
+namespace Occa.Expr
+open Occa.Gen
+
+theorem pfx_prec_facts : Op.sizeof_.prec = 3 ∧ Op.throw_.prec = 17 ∧ Op.parenCast.prec = 3 ∧ Op.questionMark.prec = 16 ∧
+    Op.colon.prec = 16 := by decide
+
+theorem pfxNode_cases (n : OpNode) (e : Expr) (h : preOk n.op = true) :
+    (has n.op.ty T.special = false ∧ pfxNode n e = .lu n.op e) ∨
+    (n.op = .parenCast ∧ pfxNode n e = .cast n.castName n.castPtrs e) ∨
+    (n.op = .sizeof_ ∧ pfxNode n e = .sizeof e) ∨
+    (n.op = .throw_ ∧ pfxNode n e = .throw_ e) := by
+  obtain ⟨_, _, _, h4, h5, h6⟩ := ty_facts_prefixOk n.op h
+  unfold pfxNode
+  by_cases hs : has n.op.ty T.special = true
+  · by_cases hp : has n.op.ty T.parenCast = true
+    · have : n.op = .parenCast := by
+        have : ∀ o : Op, has o.ty T.parenCast = true → o = .parenCast := forall_op (by decide +kernel)
+        exact this _ hp
+      exact Or.inr (Or.inl ⟨this, by simp [hs, hp]⟩)
+    · by_cases hz : has n.op.ty T.sizeof_ = true
+      · have : n.op = .sizeof_ := by
+          have : ∀ o : Op, has o.ty T.sizeof_ = true → o = .sizeof_ := forall_op (by decide +kernel)
+          exact this _ hz
+        exact Or.inr (Or.inr (Or.inl ⟨this, by simp [hs, hp, hz]⟩))
+      · have ht := (h4 hs (by simpa using hp) (by simpa using hz)).2.2
+        have : n.op = .throw_ := by
+          have : ∀ o : Op, has o.ty T.throw_ = true → o = .throw_ := forall_op (by decide +kernel)
+          exact this _ ht
+        exact Or.inr (Or.inr (Or.inr ⟨this, by simp [hs, hp, hz]⟩))
+  · exact Or.inl ⟨by simpa using hs, by simp [hs]⟩
+
+/-- the level of a prefix node is the level of its operator -/
+theorem rootPrec_pfx (n : OpNode) (e : Expr) (h : preOk n.op = true) : rootPrec (pfxNode n e) = n.op.prec := by
+  rcases pfxNode_cases n e h with ⟨_, h2⟩ | ⟨h1, h2⟩ | ⟨h1, h2⟩ | ⟨h1, h2⟩ <;> rw [h2] <;> simp [rootPrec] <;> rw [h1]
+
+theorem canonB_pfx (n : OpNode) (e : Expr) (h : preOk n.op = true) (he : canonB e = true)
+    (hf : rightFits n.op.prec (rootPrec e) = true) : canonB (pfxNode n e) = true := by
+  rcases pfxNode_cases n e h with ⟨_, h2⟩ | ⟨h1, h2⟩ | ⟨h1, h2⟩ | ⟨h1, h2⟩
+  · rw [h2]; simp [canonB, he, hf]
+  · rw [h2]; rw [h1] at hf; simp [canonB, he, hf]
+  · rw [h2]; rw [h1] at hf; simp [canonB, he, hf]
+  · rw [h2]; rw [h1] at hf; simp [canonB, he, hf]
 
 end Occa.Expr
